@@ -24,6 +24,12 @@ func makeTlsConfig(cfg *TlsConfig, requireCert bool) (*tls.Config, error) {
 		}
 		c.RootCAs = pool
 	}
+	if cfg.VerifyClientCert {
+		// Server side. Clients must present a certificate that chains to
+		// the configured ca (system roots if no ca was configured).
+		c.ClientAuth = tls.RequireAndVerifyClientCert
+		c.ClientCAs = c.RootCAs
+	}
 
 	if cfg.DebugUseTempCert {
 		cert, err := testutils.GenerateCertificate("test.test")
